@@ -746,3 +746,32 @@ def corpus_cases():
                   o_slice(o_zip([o_map(o_arr([0, 1, 2]), f), cnt]), 1, None), ["arr", "map", "count", "zip", "skip"], ty=TUP2),
                 "toarray", None, "to_array()"))
     return out
+
+
+def replay(path):
+    """re-run a replay file: the program through the interpreter (and the model request, if any); exit 1 while it still fails"""
+    d = json.load(open(path))
+    r = d["replay"]
+    req = {"op": r.get("op", "run"), "src": r["src"], "get": r.get("get", ["a"]), "limits": r.get("limits", {})}
+    if "f" in r:
+        req["f"] = r["f"]
+    resp = run_harness([req], per_req_timeout=30.0)[0]
+    fail = _fail(resp)
+    got = {k: (fail if fail is not None else resp["vals"].get(k)) for k in req["get"]}
+    print("program :", r["src"])
+    print("limits  :", req["limits"])
+    print("got     :", got)
+    if "expected" in r:
+        print("expected:", r["expected"])
+    mo = None
+    if "model" in r:
+        mo = run_model([r["model"]])[0]
+        print("model   :", r["model"], "=>", mo)
+    vals = [canon_impl(v) for v in got.values()]
+    bad = any(v in ("HANG", "PANIC") or v.startswith("COMPILE") for v in vals) or len(set(vals)) > 1
+    if r.get("expected") is not None:
+        bad = bad or any(v != r["expected"] for v in vals)
+    if mo is not None and r.get("expected") is None:
+        bad = bad or any(v != parse_model(mo) for v in vals)
+    print("VIOLATION property=C16 replay=%s" % path if bad else "no longer failing")
+    return 1 if bad else 0
